@@ -158,11 +158,23 @@ def shards(tier):
         out.append({"kind": "mut", "n": n})
     for k in range(3):
         out.append({"kind": "raw", "n": n * 3})
+    out.append({"kind": "pc0"})
     return out
 
 
 def run_shard(spec, seed, tier):
     acc = Acc()
+    if spec["kind"] == "pc0":
+        # hand-written loops whose head is the JUMPDEST at pc 0 (a destination the DSL never produces)
+        from props import c19_decode as c19
+
+        for kind in ("jumpi", "jump"):
+            for symbolic in (False, True):
+                for limit in (1, 2, 3):
+                    case = {"kind": "raw", "raw": c19.pc0_program(limit, kind, symbolic).hex(), "seed": seed % 1000 + limit}
+                    for b, d in run_case(case, acc):
+                        acc.fail(["pc0-loop"] + list(b), case, d)
+        return acc
 
     def body(case):
         for b, d in run_case(case, acc):
